@@ -326,6 +326,8 @@ type Run struct {
 	overflow    bool
 	retPaths    int
 	caseTag     string // current case split, for messages
+	safeKinds   map[string]bool // non-empty: only these kinds (assert, bounds, slice, nil, nilrecv, div, ...) are obligations
+	siteNames   bool   // sweep mode: one clause per source site (named by its source line) instead of one per kind
 }
 
 type unsupportedErr struct{ msg string }
@@ -885,6 +887,9 @@ func (r *Run) enterLoopHeader(st *State, fr *Frame, h *ssa.BasicBlock, prev *ssa
 			continue // allocated inside the loop body
 		}
 		old := st.cells[id]
+		if old == nil {
+			continue // the cell belongs to another path
+		}
 		nv := freshVal(old.T, "loop"+fmt.Sprint(k)+"."+a.Comment, fr.te)
 		st.cells[id] = nv
 		r.assumeWF(st, nv, fr.te)
@@ -1344,7 +1349,7 @@ func (r *Run) onPanic(st *State, fr *Frame, x *ssa.Panic) {
 	if spec == nil {
 		return
 	}
-	if spec.Has("nopanic") || spec.Has("safe") {
+	if spec.Has("nopanic") || (spec.Has("safe") && strings.TrimSpace(spec.Flags["safe"]) == "") {
 		var cond *Term = False
 		for _, c := range spec.ClausesOf("panics_if") {
 			env := r.specEnv(st, top, "post")
@@ -1647,10 +1652,23 @@ func (r *Run) safety(st *State, fr *Frame, clause string, pos token.Pos, cond *T
 			return // already established on this path
 		}
 	}
+	if r.safe && len(r.safeKinds) > 0 && !r.safeKinds[strings.TrimPrefix(clause, "safe.")] {
+		st.assume(cond) // "safe k1 k2": only the listed kinds of implicit panic are proof obligations
+		return
+	}
+	if r.safe && r.siteNames && (clause == "safe.nil" || clause == "safe.nilrecv" || clause == "safe.nilmap") {
+		// the sweep does not try to prove nil-freedom of receivers and fields (that needs data-structure invariants);
+		// it looks at type assertions, index/slice expressions and divisions
+		st.assume(cond)
+		return
+	}
 	if r.safe {
 		props := []string(nil)
 		if r.spec != nil {
 			props = r.spec.Props
+		}
+		if r.siteNames {
+			clause = clause + "(" + r.v.sourceLine(pos) + ")"
 		}
 		r.oblige(st, clause, props, r.v.pos(pos), cond)
 	}
